@@ -102,6 +102,16 @@ HdrBad(h)  == ~IsCT(h.name) /\ IF h.present THEN TxtBad(h) ELSE h.hreq
 HdrAccepts(c) == (\A i \in DOMAIN c.hdrs : HdrGood(c.hdrs[i])) /\ BodyAccepts(c)
 HdrRejects(c) == (\E i \in DOMAIN c.hdrs : HdrBad(c.hdrs[i])) \/ ~BodyAccepts(c)
 
-Accepts(c) == CASE c.part = "pick" -> PickAccepts(c) [] c.part = "hdr" -> HdrAccepts(c) [] OTHER -> DefAccepts(c)
+(* part 4 ("media"): which entry of the definition's `content` map is used.  The keys of the map are media types / media  *)
+(* ranges and MAY carry parameters ("application/json; charset=utf-8"); c.decls is the declared set (a sequence of media    *)
+(* types), c.ct the response's Content-Type, and entry i accepts exactly the bodies carrying the marker property "m"+i.     *)
+(* The entry used is MediaSelect!Select: the Content-Type verbatim (parameters included), then without its parameters,      *)
+(* then type/*, then */*; none => the content type is undeclared and the response is rejected.                              *)
+MediaAccepts(c) ==
+   LET sel == Select({c.decls[i] : i \in DOMAIN c.decls}, c.ct) IN
+   ~IsNone(sel) /\ c.decls[c.mark] = sel
+
+Accepts(c) == CASE c.part = "pick" -> PickAccepts(c) [] c.part = "hdr" -> HdrAccepts(c) [] c.part = "media" -> MediaAccepts(c)
+                [] OTHER -> DefAccepts(c)
 Rejects(c) == IF c.part = "hdr" THEN HdrRejects(c) ELSE ~Accepts(c)
 =============================================================================
